@@ -1,4 +1,4 @@
-//@ unit u9_pipeline props C02 C06
+//@ unit u9_pipeline props C02 C06 also C18
 // Unit U9: the receiving pipeline of a room synchronisation (src/synchronisation/peer_inbound_service.rs:
 // synchronise_room, synchronise_room_definition, synchronise_day).  Whatever the remote side answers, a node, reference,
 // deletion record, room definition or peer row reaches the database ingestion entry points (add_nodes, add_edges,
@@ -59,6 +59,7 @@ pub uninterp spec fn edge_del_ok(e: EdgeDeletionEntry) -> bool;
 pub uninterp spec fn node_del_ok(e: NodeDeletionEntry) -> bool;
 pub uninterp spec fn room_node_ok(e: RoomNode) -> bool;
 pub uninterp spec fn peer_row_valid(n: Node) -> bool;
+pub uninterp spec fn sync_changed_data(remote_room: RoomDefinitionLog, local_room_def: Option<RoomDefinitionLog>) -> bool;
 pub open spec fn all_nodes_ok(s: Seq<Node>) -> bool { forall|i: int| 0 <= i < s.len() ==> node_ok(#[trigger] s[i]) }
 pub open spec fn all_peers_valid(s: Seq<Node>) -> bool { forall|i: int| 0 <= i < s.len() ==> peer_row_valid(#[trigger] s[i]) }
 pub open spec fn all_edges_ok(s: Seq<Edge>) -> bool { forall|i: int| 0 <= i < s.len() ==> edge_ok(#[trigger] s[i]) }
@@ -148,7 +149,9 @@ impl LocalPeerService {
     pub async fn query_multiple<T>(query_service: &QueryService, query: Query) -> (r: Receiver<std::result::Result<T, Error>>) { unimplemented!() }
     // the two halves of synchronise_room that decide WHICH days are fetched (hash comparison): not under contract here
     #[verifier::external_body]
-    pub async fn synchronise_room_data(remote_room: &RoomDefinitionLog, local_room_def: &Option<RoomDefinitionLog>, query_service: &QueryService, discret_services: &DiscretServices) -> (r: std::result::Result<bool, crate_error::Error>) { unimplemented!() }
+    pub async fn synchronise_room_data(remote_room: &RoomDefinitionLog, local_room_def: &Option<RoomDefinitionLog>, query_service: &QueryService, discret_services: &DiscretServices) -> (r: std::result::Result<bool, crate_error::Error>)
+        ensures r is Ok ==> r->Ok_0 == sync_changed_data(*remote_room, *local_room_def)      // only names the answer ("some row or deletion record was fetched")
+    { unimplemented!() }
 }
 // E8 cut: `for node in nodes { remote_nodes.insert(node); }` (HashSet consumed by value: no Verus model of hash_set::IntoIter)
 #[verifier::external_body]
@@ -189,6 +192,13 @@ pub fn cut_collect_ids(remote_nodes: &mut HashSet<NodeIdentifier>, nodes: HashSe
             invariant all_peers_valid(peer_nodes@),
 //@ loop "for node in nodes" #2
                         invariant all_peers_valid(peer_nodes@),
+//@ insert body-start
+        let ghost mut recompute_requested: bool = false;
+//@ insert after-stmt "discret_services.database.compute_daily_log().await;"
+            proof { recompute_requested = true; }
+//@ insert before-stmt "Ok(())" #1
+        // [recompute_requested_after_synchronised_batch]{C18} a synchronisation that fetched rows or deletion records asks for the recomputation of the daily logs (which produces the data-changed event) before it reports success
+        assert(sync_changed_data(remote_room, local_room_def) ==> recompute_requested);
 //@ insert before-stmt ".add_peer_nodes(peer_nodes.clone())"
         // [peer_rows_ingested_only_validated_and_signature_checked] a peer row received from the remote side is stored only after Peer::validate accepted it and its signature was checked
         assert(all_nodes_ok(peer_nodes@) && all_peers_valid(peer_nodes@));
